@@ -339,7 +339,8 @@ func c09RunRtpfb(t *testing.T, ops []string, o *Out) {
 			if !ok {
 				info := &interceptor.StreamInfo{SSRC: k.ssrc}
 				if k.tw {
-					info.RTPHeaderExtensions = []interceptor.RTPHeaderExtension{{URI: c09TwccURI, ID: 1}}
+					// every stream negotiates its own extension id (1..13, a function of the SSRC)
+					info.RTPHeaderExtensions = []interceptor.RTPHeaderExtension{{URI: c09TwccURI, ID: c09ExtID(k.ssrc)}}
 				}
 				w = ic.BindLocalStream(info, interceptor.RTPWriterFunc(func(_ *rtp.Header, p []byte, _ interceptor.Attributes) (int, error) {
 					return len(p), nil
@@ -349,7 +350,7 @@ func c09RunRtpfb(t *testing.T, ops []string, o *Out) {
 			h := rtp.Header{Version: 2, SSRC: k.ssrc, SequenceNumber: uint16(atoi(m["seq"]))}
 			if m["tw"] != "-" {
 				b, _ := (&rtp.TransportCCExtension{TransportSequence: uint16(atoi(m["tw"]))}).Marshal()
-				_ = h.SetExtension(1, b)
+				_ = h.SetExtension(uint8(c09ExtID(k.ssrc)), b)
 			}
 			now = c09ZT(m["t"])
 			if _, err := w.Write(&h, payload[:atoi(m["pl"])], nil); err != nil {
@@ -1001,3 +1002,6 @@ func init() {
 		Run: c09RunRtpfb,
 	})
 }
+
+// c09ExtID is the transport-cc header extension id the stream with this SSRC negotiates.
+func c09ExtID(ssrc uint32) int { return 1 + int(ssrc*7%13) }
